@@ -208,6 +208,9 @@ pub struct Probe {
     pub parked: Arc<Mutex<Vec<Box<dyn std::any::Any>>>>,
     /// completion latch: (units still running, waiter)
     pub latch: Arc<Mutex<(usize, Option<std::task::Waker>)>>,
+    /// start gate: (open, waiters) - lets a monitor run a first phase to quiescence (e.g. until the
+    /// peer's SETTINGS have been applied) before the application starts its requests
+    pub gate: Arc<Mutex<(bool, Vec<std::task::Waker>)>>,
 }
 
 impl Probe {
@@ -218,7 +221,27 @@ impl Probe {
             open_ops: Arc::new(Mutex::new(BTreeMap::new())),
             parked: Arc::new(Mutex::new(Vec::new())),
             latch: Arc::new(Mutex::new((0, None))),
+            gate: Arc::new(Mutex::new((false, Vec::new()))),
         }
+    }
+    pub fn gate_open(&self) {
+        let mut g = self.gate.lock().unwrap();
+        g.0 = true;
+        for w in g.1.drain(..) {
+            w.wake();
+        }
+    }
+    pub async fn gate_wait(&self) {
+        std::future::poll_fn(|cx| {
+            let mut g = self.gate.lock().unwrap();
+            if g.0 {
+                std::task::Poll::Ready(())
+            } else {
+                g.1.push(cx.waker().clone());
+                std::task::Poll::Pending
+            }
+        })
+        .await
     }
     pub fn latch_add(&self, n: usize) {
         self.latch.lock().unwrap().0 += n;
@@ -419,13 +442,40 @@ impl CliCfg {
     }
 }
 
-#[derive(Debug, Clone, Default)]
+/// how a sender ends its message
+#[derive(Debug, Clone, Copy, PartialEq, Eq, Default)]
+pub enum EndMode {
+    /// finish() (the documented way)
+    #[default]
+    Finish,
+    /// drop the handle without finishing
+    Drop,
+    /// stop_stream(code): reset the send side
+    Reset(u64),
+}
+
+#[derive(Debug, Clone)]
 pub struct RespPlan {
     pub resp: Msg,
     /// drive the two halves from separate tasks
     pub split: bool,
-    /// call finish() at the end (documented); false = just drop
-    pub finish: bool,
+    pub end: EndMode,
+    /// read the request body and trailers (documented); false = respond without reading
+    pub read_request: bool,
+    /// number of send_data pieces to send before ending (None = all)
+    pub stop_after_pieces: Option<usize>,
+}
+
+impl Default for RespPlan {
+    fn default() -> Self {
+        RespPlan {
+            resp: Msg::default(),
+            split: false,
+            end: EndMode::Finish,
+            read_request: true,
+            stop_after_pieces: None,
+        }
+    }
 }
 
 #[derive(Debug, Clone, Default)]
@@ -544,9 +594,12 @@ pub async fn server_request<B: BodyBuf>(
         let (send, recv) = stream.split();
         let ractor = format!("s:req@{}:recv", sid);
         let p2 = probe.clone();
+        let read_request = plan.read_request;
         spawner.spawn(ractor.clone(), async move {
             let mut recv = recv;
-            let _ = server_recv_half::<B, _>(&mut recv, &ractor, &p2).await;
+            if read_request {
+                let _ = server_recv_half::<B, _>(&mut recv, &ractor, &p2).await;
+            }
             drop(recv);
             p2.record(&ractor, "handles", Out::Dropped);
             if latch {
@@ -560,7 +613,7 @@ pub async fn server_request<B: BodyBuf>(
         probe.record(&sactor, "handles", Out::Dropped);
     } else {
         let mut stream = stream;
-        if server_recv_half::<B, _>(&mut stream, &actor, &probe).await.is_ok() {
+        if !plan.read_request || server_recv_half::<B, _>(&mut stream, &actor, &probe).await.is_ok() {
             let _ = server_send_half::<B, _>(&mut stream, &plan, &actor, &probe, sid).await;
         }
         drop(stream);
@@ -628,22 +681,34 @@ async fn server_send_half<B: BodyBuf, S: h3::quic::SendStream<B>>(
         .await
         .map_err(|_| ())?;
     for (i, piece) in plan.resp.body.iter().enumerate() {
+        if plan.stop_after_pieces == Some(i) {
+            break;
+        }
         probe
             .call(actor, "send_data", s.send_data(B::make(piece.clone(), salt ^ i as u64)), |r| unit_out(r, se))
             .await
             .map_err(|_| ())?;
     }
-    if let Some(t) = &plan.resp.trailers {
-        probe
-            .call(actor, "send_trailers", s.send_trailers(header_map(t)), |r| unit_out(r, se))
-            .await
-            .map_err(|_| ())?;
+    if plan.stop_after_pieces.is_none() {
+        if let Some(t) = &plan.resp.trailers {
+            probe
+                .call(actor, "send_trailers", s.send_trailers(header_map(t)), |r| unit_out(r, se))
+                .await
+                .map_err(|_| ())?;
+        }
     }
-    if plan.finish {
-        probe
-            .call(actor, "finish", s.finish(), |r| unit_out(r, se))
-            .await
-            .map_err(|_| ())?;
+    match plan.end {
+        EndMode::Finish => {
+            probe
+                .call(actor, "finish", s.finish(), |r| unit_out(r, se))
+                .await
+                .map_err(|_| ())?;
+        }
+        EndMode::Drop => {}
+        EndMode::Reset(c) => {
+            s.stop_stream(Code::from(c));
+            probe.record(actor, "stop_stream", Out::Ok);
+        }
     }
     Ok(())
 }
@@ -651,11 +716,26 @@ async fn server_send_half<B: BodyBuf, S: h3::quic::SendStream<B>>(
 // ---------------------------------------------------------------------------------------------
 // client
 
-#[derive(Debug, Clone, Default)]
+#[derive(Debug, Clone)]
 pub struct ReqPlan {
     pub req: Msg,
     pub split: bool,
-    pub finish: bool,
+    pub end: EndMode,
+    /// read the response (documented); false = drop after sending
+    pub read_response: bool,
+    pub stop_after_pieces: Option<usize>,
+}
+
+impl Default for ReqPlan {
+    fn default() -> Self {
+        ReqPlan {
+            req: Msg::default(),
+            split: false,
+            end: EndMode::Finish,
+            read_response: true,
+            stop_after_pieces: None,
+        }
+    }
 }
 
 #[derive(Debug, Clone, Default)]
@@ -664,6 +744,10 @@ pub struct ClientOpts {
     pub reqs: Vec<ReqPlan>,
     /// issue the requests one after the other from one task instead of one task each
     pub sequential: bool,
+    /// the driver task calls shutdown(n) (GOAWAY) before it starts polling
+    pub shutdown_at_start: Option<usize>,
+    /// wait for `Probe::gate_open` before issuing the requests
+    pub wait_gate: bool,
 }
 
 /// client: build, spawn the driver (poll_close), one task per request; the SendRequest handle
@@ -681,7 +765,15 @@ pub async fn client_main<B: BodyBuf>(net: Net, opts: ClientOpts, probe: Probe, s
         Err(_) => return,
     };
     let p2 = probe.clone();
+    let shutdown_at_start = opts.shutdown_at_start;
     spawner.spawn("c:driver", async move {
+        if let Some(n) = shutdown_at_start {
+            let r = p2.call("c:driver", "shutdown", conn.shutdown(n), |r| unit_out(r, ce)).await;
+            if r.is_err() {
+                p2.park(conn);
+                return;
+            }
+        }
         let e = p2
             .call("c:driver", "wait_idle", std::future::poll_fn(|cx| conn.poll_close(cx)), |e| ce(e))
             .await;
@@ -690,6 +782,12 @@ pub async fn client_main<B: BodyBuf>(net: Net, opts: ClientOpts, probe: Probe, s
     });
     let units: usize = opts.reqs.iter().map(|r| if r.split { 2 } else { 1 }).sum();
     probe.latch_add(units);
+    if opts.wait_gate {
+        let t = probe.now();
+        probe.open_ops.lock().unwrap().insert("c:conn".into(), ("idle(waiting for gate)", t));
+        probe.gate_wait().await;
+        probe.open_ops.lock().unwrap().remove("c:conn");
+    }
     if opts.sequential {
         let mut s2 = send.clone();
         for (i, plan) in opts.reqs.iter().enumerate() {
@@ -743,9 +841,12 @@ pub async fn client_request<B: BodyBuf>(send: &mut CliSend<B>, plan: ReqPlan, pr
         let (send_half, recv_half) = stream.split();
         let ractor = format!("c:req#{}:recv", i);
         let p2 = probe.clone();
+        let read_response = plan.read_response;
         spawner.spawn(ractor.clone(), async move {
             let mut recv_half = recv_half;
-            let _ = client_recv_half::<B, _>(&mut recv_half, &ractor, &p2).await;
+            if read_response {
+                let _ = client_recv_half::<B, _>(&mut recv_half, &ractor, &p2).await;
+            }
             drop(recv_half);
             p2.record(&ractor, "handles", Out::Dropped);
             p2.latch_done();
@@ -758,7 +859,7 @@ pub async fn client_request<B: BodyBuf>(send: &mut CliSend<B>, plan: ReqPlan, pr
         probe.latch_done();
     } else {
         let mut stream = stream;
-        if client_send_half::<B, _>(&mut stream, &plan, &actor, &probe, i as u64).await.is_ok() {
+        if client_send_half::<B, _>(&mut stream, &plan, &actor, &probe, i as u64).await.is_ok() && plan.read_response {
             let _ = client_recv_half::<B, _>(&mut stream, &actor, &probe).await;
         }
         drop(stream);
@@ -775,22 +876,34 @@ async fn client_send_half<B: BodyBuf, S: h3::quic::SendStream<B>>(
     salt: u64,
 ) -> Result<(), ()> {
     for (i, piece) in plan.req.body.iter().enumerate() {
+        if plan.stop_after_pieces == Some(i) {
+            break;
+        }
         probe
             .call(actor, "send_data", s.send_data(B::make(piece.clone(), (salt << 8) ^ i as u64)), |r| unit_out(r, se))
             .await
             .map_err(|_| ())?;
     }
-    if let Some(t) = &plan.req.trailers {
-        probe
-            .call(actor, "send_trailers", s.send_trailers(header_map(t)), |r| unit_out(r, se))
-            .await
-            .map_err(|_| ())?;
+    if plan.stop_after_pieces.is_none() {
+        if let Some(t) = &plan.req.trailers {
+            probe
+                .call(actor, "send_trailers", s.send_trailers(header_map(t)), |r| unit_out(r, se))
+                .await
+                .map_err(|_| ())?;
+        }
     }
-    if plan.finish {
-        probe
-            .call(actor, "finish", s.finish(), |r| unit_out(r, se))
-            .await
-            .map_err(|_| ())?;
+    match plan.end {
+        EndMode::Finish => {
+            probe
+                .call(actor, "finish", s.finish(), |r| unit_out(r, se))
+                .await
+                .map_err(|_| ())?;
+        }
+        EndMode::Drop => {}
+        EndMode::Reset(c) => {
+            s.stop_stream(Code::from(c));
+            probe.record(actor, "stop_stream", Out::Ok);
+        }
     }
     Ok(())
 }
